@@ -238,8 +238,9 @@ def adaptive_body(ctx, case):
         # qualitative clause, read off the output alone: the side with the larger jump never has the larger window
         left = y[k - 1] if k > 0 else y[k]
         jl, jr = abs(y[k] - left), abs(y[k + 1] - y[k])
-        if jl != 0 and jr != 0:
-            thr = 1e-12 * max(abs(left), abs(y[k]), abs(y[k + 1]))
+        sc = max(abs(left), abs(y[k]), abs(y[k + 1]))
+        if min(jl, jr) > 1e-6 * sc:      # both transitions are visible above the 1e-12 'differs' threshold
+            thr = 1e-12 * sc
             d = [abs(float(v) - y[k]) > thr for v in seg]
             p = 0
             while p < n and d[p]:
